@@ -18,6 +18,7 @@ import multiprocessing
 import os
 import pickle
 import random
+import re
 import sqlite3
 import tempfile
 import time
@@ -465,9 +466,10 @@ def check_against_spec(comp, ids, outcomes, recs, problems):
 
 
 def comparable(content):
-    """content with the traceback of a message reduced to its last line"""
+    """content with the traceback of a message reduced to the words of its last line (cogent3 prints a set of type
+    names in the 'invalid data type' message, whose order differs between processes)"""
     if content and content[0] == "nc":
-        return ["nc", content[1], content[2], last_line(content[3]), content[4]]
+        return ["nc", content[1], content[2], sorted(re.findall(r"[\w'.-]+", last_line(content[3]))), content[4]]
     return content
 
 
@@ -478,7 +480,14 @@ def run_apply(root, comp, ids, outcomes, form="store", par=None, log=False, stub
     ins = make_inputs(root, comp, ids, outcomes)
     out, out_path = open_out(root, comp["writer"])
     app = build_app(comp, outcomes, out, order=order, marks=marks)
-    dstore = ins if form == "store" else [str(Path(ins.source) / f"{i}.fasta") for i in ids]
+    if form == "store":
+        dstore = ins
+    elif form == "paths":
+        dstore = [str(Path(ins.source) / f"{i}.fasta") for i in ids]
+    else:          # "members": the members in the order of `ids`, so that position j of the pool's task list is ids[j]
+        names = [i if comp["loader"] == "db" else f"{i}.fasta" for i in ids]
+        found = {str(m.unique_id): m for m in ins.completed}
+        dstore = [found[n] for n in names]
     kw = dict(show_progress=False, logger=None if log else False)
     if par:
         kw.update(parallel=True, par_kw=dict(par))
@@ -537,8 +546,8 @@ def run_alone(root, comp, ids, outcomes):
 
 
 def _run_single(root, comp, ids, outcomes, idx, form):
-    """apply_to on the single input idx; the record content/key depends on its index, so the index is kept by
-    padding the case with the preceding inputs removed after the files are written"""
+    """apply_to on the single input idx of the case (same files, same scripts, fresh output store): does this
+    record make apply_to raise on its own?  Used only to name the culprit in a failure key."""
     sub = Path(root) / f"culprit{idx}"
     sub.mkdir(parents=True, exist_ok=True)
     ins = make_inputs(sub, comp, ids, outcomes)
@@ -558,29 +567,48 @@ def _run_single(root, comp, ids, outcomes, idx, form):
 
 
 def judge(prefix, comp, ids, outcomes, exc, recs, lists, root, form="store", alone=True, reference=None):
-    """all discrepancies of one run, most severe first -> contract result"""
+    """all discrepancies of one run, most severe first -> contract result.
+    reference: (exception, records) of the serial run of the same case, for the scheduled contracts"""
     problems = []
-    if exc is not None:
+    if exc is not None and not (reference is not None and reference[0] is None):
         bad = []
         with contextlib.suppress(Exception):
             bad = [describe(comp, outcomes[i]) for i in range(len(ids))
                    if _run_single(root, comp, ids, outcomes, i, form)[0] is not None]
             bad = sorted(set(bad))
         if not bad:
-            bad = ["only-in-combination:" + "+".join(sorted({describe(comp, o) for o in outcomes}))]
-        problems.append((P_RAISE, f"apply_to-raises:{type(exc).__name__}/{'+'.join(bad)}",
+            bad = ["no-single-record-raises-alone"]
+        # one culprit names the failure class (the alphabetically first when several records raise on their own)
+        problems.append((P_RAISE, f"apply_to-raises:{type(exc).__name__}/{bad[0]}",
                          f"apply_to raised {type(exc).__name__}: {str(exc)[:160]}; store then holds "
                          f"{lists['disk']}"))
     if reference is not None:
-        ref = sorted([r[0], r[1], comparable(r[2])] for r in reference)
-        now = sorted([r[0], r[1], comparable(r[2])] for r in recs)
-        if ref != now:
-            diff = [r for r in now if r not in ref] + [r for r in ref if r not in now]
-            problems.append((P_ORDER, "differs-from-serial-run/" + "+".join(sorted({describe(comp, o) for o in outcomes})),
-                             f"scheduled run and serial run disagree on {str(diff)[:300]}"))
+        ref_exc, ref_recs = reference
+        if (ref_exc is None) != (exc is None):
+            which = "only-when-scheduled" if exc is not None else "only-in-serial-run"
+            problems.append((P_ORDER, f"raises-{which}:{type(exc or ref_exc).__name__}",
+                             f"serial run: {ref_exc!r}; scheduled run: {exc!r}"))
+        elif exc is None:
+            ref = sorted([r[0], r[1], comparable(r[2])] for r in ref_recs)
+            now = sorted([r[0], r[1], comparable(r[2])] for r in recs)
+            if ref != now:
+                rid, nid = [r[0] for r in ref], [r[0] for r in now]
+                lost = [i for i in rid if rid.count(i) > nid.count(i)]
+                extra = [i for i in nid if nid.count(i) > rid.count(i)]
+                changed = [r[0] for r in now if r not in ref and r[0] not in lost + extra]
+                sym, first = (("record-lost", lost[0]) if lost else ("record-added", extra[0]) if extra
+                              else ("record-changed", changed[0]))
+                d = describe(comp, outcomes[ids.index(first)]) if first in ids else "no-input"
+                diff = [r for r in now if r not in ref] + [r for r in ref if r not in now]
+                problems.append((P_ORDER, f"differs-from-serial-run/{sym}/{d}",
+                                 f"scheduled run and serial run disagree (lost {lost}, added {extra}, changed "
+                                 f"{changed}): {str(diff)[:300]}"))
     if exc is None and not (lists["returned"] == lists["reopened"] == lists["disk"]):
         dup = "duplicate-entry" if len(lists["returned"]) > len(lists["disk"]) else "mismatch"
-        problems.append((P_LISTING, f"store-listing-{dup}/" + "+".join(sorted({describe(comp, o) for o in outcomes})),
+        odd = [e[0] for e in lists["returned"] + lists["reopened"] + lists["disk"]
+               if not (lists["returned"].count(e) == lists["reopened"].count(e) == lists["disk"].count(e))]
+        d = describe(comp, outcomes[ids.index(odd[0])]) if odd and odd[0] in ids else "no-input"
+        problems.append((P_LISTING, f"store-listing-{dup}/{d}",
                          f"returned store lists {lists['returned']}, reopened store lists {lists['reopened']}, "
                          f"disk holds {lists['disk']}"))
     if exc is None:
@@ -606,7 +634,10 @@ def judge(prefix, comp, ids, outcomes, exc, recs, lists, root, form="store", alo
     p = problems[0]
     shape = f"{comp['loader']}+{comp['g']}+{comp['writer']}"
     more = "; also: " + "; ".join(q[1] for q in problems[1:4]) if len(problems) > 1 else ""
-    return ("fail", f"{prefix}/{p[1]}", f"composition {shape}, ids {ids}, outcomes {outcomes}: {p[2]}{more}")
+    # what a record ends up as does not depend on the contract that saw it: one key space "apply/..." for all
+    # three apply_to contracts; discrepancies between a scheduled and the serial run carry the contract's name
+    head = prefix if p[0] == P_ORDER else "apply"
+    return ("fail", f"{head}/{p[1]}", f"composition {shape}, ids {ids}, outcomes {outcomes}: {p[2]}{more}")
 
 
 # ------------------------------------------------------------------------------------------------ serial
@@ -630,7 +661,7 @@ def gen_serial(tier, seed):
              for wr in ("seqs", "json", "db")]
     for comp in comps:
         space = outcome_space(comp)
-        # n = 1: every outcome; both input forms
+        # n = 1: every outcome
         for o in space:
             yield {"comp": comp, "ids": ["a"], "out": [o], "form": "store", "log": False}
         # n = 2: every unordered pair of outcomes
@@ -640,8 +671,12 @@ def gen_serial(tier, seed):
                         and o1[0] == o2[0] and o1 != o2 and rnd.random() < 0.5:
                     continue
                 yield {"comp": comp, "ids": ["a", "b"], "out": [o1, o2], "form": "store", "log": False}
+        # n = 3: every unordered triple of outcomes for compositions with at most one step (thorough)
+        if thorough and comp["g"] <= 1:
+            for trip in itertools.combinations_with_replacement(space, 3):
+                yield {"comp": comp, "ids": ["a", "b", "c"], "out": list(trip), "form": "store", "log": False}
         # n = 3..5: seeded sample
-        for _ in range(60 if thorough else 6):
+        for _ in range(150 if thorough else 6):
             n = rnd.choice((3, 4, 5)) if thorough else 3
             yield {"comp": comp, "ids": PLAIN[:n], "out": [rnd.choice(space) for _ in range(n)],
                    "form": "store", "log": False}
@@ -666,7 +701,7 @@ def contract_serial(case):
         try:
             exc, recs, lists = run_apply(Path(root) / "run", comp, ids, outcomes, form=case["form"], log=case["log"])
         except Exception as e:
-            return ("fail", f"serial/harness-step-raises:{type(e).__name__}",
+            return ("fail", f"serial/checker-step-raises:{type(e).__name__}",
                     f"{case}: building inputs / reading the store back failed: {e}")
         return judge("serial", comp, ids, outcomes, exc, recs, lists, root, form=case["form"])
 
@@ -734,14 +769,15 @@ def contract_schedules(case):
     comp, ids, outcomes, order = case["comp"], case["ids"], case["out"], case["order"]
     with tmp_root() as root, as_user_process():
         try:
-            _, ref, _ = run_apply(Path(root) / "serial", comp, ids, outcomes)
+            ref_exc, ref, _ = run_apply(Path(root) / "serial", comp, ids, outcomes)
             stub = SchedulerStub(order)
-            exc, recs, lists = run_apply(Path(root) / "run", comp, ids, outcomes, par={"max_workers": 2}, stub=stub)
+            exc, recs, lists = run_apply(Path(root) / "run", comp, ids, outcomes, form="members",
+                                         par={"max_workers": 2}, stub=stub)
         except Exception as e:
-            return ("fail", f"schedules/harness-step-raises:{type(e).__name__}", f"{case}: {e}")
+            return ("fail", f"schedules/checker-step-raises:{type(e).__name__}", f"{case}: {e}")
         if not stub.used:
             return ("fail", "schedules/parallel-path-not-taken", f"{case}: apply_to(parallel=True) never asked the pool")
-        res = judge("schedules", comp, ids, outcomes, exc, recs, lists, root, alone=False, reference=ref)
+        res = judge("schedules", comp, ids, outcomes, exc, recs, lists, root, alone=False, reference=(ref_exc, ref))
         if res[0] == "ok":
             return ("ok", len(ids) > 1 and order != sorted(order))
         return res
@@ -788,7 +824,6 @@ def contract_pool(case):
         kw = dict(max_workers=w)
         if chunk is not None:
             kw["chunksize"] = chunk
-        t0 = time.time()
         try:
             got = list(getattr(PAR, case["fn"])(barrier_task, args, **kw))
         except Exception as e:
@@ -844,12 +879,18 @@ def contract_parallel(case):
         if case["chunk"] is not None:
             par["chunksize"] = case["chunk"]
         try:
-            _, ref, _ = run_apply(Path(root) / "serial", comp, ids, outcomes)
-            exc, recs, lists = run_apply(Path(root) / "run", comp, ids, outcomes, par=par,
+            ref_exc, ref, _ = run_apply(Path(root) / "serial", comp, ids, outcomes)
+            exc, recs, lists = run_apply(Path(root) / "run", comp, ids, outcomes, form="members", par=par,
                                          order=order_by_key, marks=str(marks))
         except Exception as e:
-            return ("fail", f"parallel/harness-step-raises:{type(e).__name__}", f"{case}: {e}")
-        return judge("parallel", comp, ids, outcomes, exc, recs, lists, root, alone=False, reference=ref)
+            return ("fail", f"parallel/checker-step-raises:{type(e).__name__}", f"{case}: {e}")
+        res = judge("parallel", comp, ids, outcomes, exc, recs, lists, root, alone=False, reference=(ref_exc, ref))
+        if res[0] != "ok":
+            return res
+        # non-trivial when the barrier realised the requested completion order and it is not the submission order
+        done = sorted((p.stat().st_mtime_ns, p.name) for p in marks.glob("done-k*"))
+        realised = [int(n[len("done-k"):]) for _, n in done]
+        return ("ok", realised == list(order) and list(order) != sorted(order))
 
 
 # ------------------------------------------------------------------------------------------------ call
@@ -1015,7 +1056,8 @@ BOUNDED = {
                       "sqlite_data_store.DataStoreSqlite", "data_store.get_unique_id"],
         "bound": "loader in {scripted, load_unaligned, load_aligned, load_db} x 0..2 (thorough 3) scripted steps x "
                  "writer in {write_seqs, write_json, write_db}; 1 input: every outcome (first failing stage x kind); "
-                 "2 inputs: every unordered pair of outcomes; 3 (thorough 3..5) inputs: seeded sample; inputs as "
+                 "2 inputs: every unordered pair of outcomes (quick: half of the same-stage pairs at 2 steps); 3 inputs: "
+                 "seeded sample (thorough: every unordered triple for <= 1 step, seeded sample of 3..5 inputs); inputs as "
                  "store or list of paths; with/without log; identifier sets {a,ba,cba}, {g.1,g.2,h}, "
                  "{x<suffix>1,y}, {'a b','A'} x {ok, fail}^n",
         "rule": "a case = (composition, identifiers, outcome per record, input form, log); non-trivial when some "
@@ -1028,8 +1070,9 @@ BOUNDED = {
         "bound": "6 compositions x 1..5 inputs x every completion order (5 inputs: 24 sampled orders in quick, all "
                  "120 in thorough) x 3..12 outcome vectors; the pool is an in-process scheduler meeting the assumed "
                  "contract T with a pickle boundary; thorough adds 6..9 inputs in random order",
-        "rule": "a case = (composition, outcome per record, completion order); non-trivial when the order is not the "
-                "submission order; store == serial run == spec",
+        "rule": "a case = (composition, outcome per record, completion order over the inputs, which are passed as the "
+                "list of members in identifier order); non-trivial when the order is not the submission order; "
+                "store == serial run == spec",
     },
     "pool": {
         "gen": gen_pool, "contract": contract_pool, "shards": 8,
@@ -1046,7 +1089,8 @@ BOUNDED = {
         "bound": "4 compositions x 3..4 (thorough 3..5) inputs x 2..3 (thorough 2..4) workers x chunksize "
                  "{None,1,2} x a seeded feasible completion order forced by a marker-file barrier x seeded outcome "
                  "vectors: 16 cases quick, 160 thorough (each call starts fresh worker processes)",
-        "rule": "a case = (composition, outcome per record, workers, chunk size, completion order); store == serial "
-                "run == spec",
+        "rule": "a case = (composition, outcome per record, workers, chunk size, completion order); non-trivial when "
+                "the marker files show the requested order was realised and it is not the submission order; store == "
+                "serial run == spec",
     },
 }
